@@ -780,6 +780,12 @@ def run_doc(doc: dict, cfg: dict):
                 compare_wire(doc, wire, cfg)
             except WireError as exc:
                 fails.append(('wire_mismatch', exc.what, f'independently decoded stream differs from the source: {exc.detail}'))
+    else:
+        head = b'<!-- dmx encoding %skeyvalues2 1 format dmx 1 -->' % (b'unicode_' if cfg['uni'] == 'format' else b'')
+        if not data.startswith(head):
+            fails.append(('wire_mismatch', 'header', f'KV2 header {data[:70]!r}, expected {head!r}'))
+        elif cfg['uni'] == 'ascii' and not data.isascii():
+            fails.append(('wire_mismatch', 'string_encoding', 'non-ASCII bytes written under unicode=ascii'))
     try:
         with guard():
             parsed, fmt_name, fmt_ver = Element.parse(io.BytesIO(data), unicode=cfg['uni'] == 'silent')
